@@ -20,6 +20,10 @@ pub struct Steady {
     pub peak: f64,
     /// max abs difference between successive periods, per frame (trend of convergence)
     pub diffs: Vec<f64>,
+    /// the first frame without its last sample: the response to the very first pulse alone
+    pub first: Vec<f64>,
+    /// that response has died away before the second pulse (sample p-1)
+    pub first_decayed: bool,
 }
 
 /// `voc` must have been created with fperiod == p and rate == 20 * p.
@@ -61,7 +65,11 @@ pub fn steady_state(mut voc: Vocoder, spectrum: &[f64], p: usize, max_frames: us
     let tail = period[period.len() - period.len() / 10..]
         .iter()
         .fold(0.0f64, |m, x| m.max(x.abs()));
-    Steady { p, period, frames_used, converged, decayed: finite && tail <= 1e-9 * peak, finite, peak, diffs }
+    let first: Vec<f64> = out.iter().take(p - 1).cloned().collect();
+    let fpeak = first.iter().fold(0.0f64, |m, x| m.max(x.abs()));
+    let ftail = first[first.len() - first.len() / 10..].iter().fold(0.0f64, |m, x| m.max(x.abs()));
+    let first_decayed = finite && first.iter().all(|x| x.is_finite()) && ftail <= 1e-10 * fpeak && fpeak > 0.0;
+    Steady { p, period, frames_used, converged, decayed: finite && tail <= 1e-9 * peak, finite, peak, diffs, first, first_decayed }
 }
 
 impl Steady {
@@ -91,6 +99,10 @@ impl Steady {
         let mut v: Vec<usize> = (0..n).map(|i| i * half / (n - 1)).collect();
         v.dedup();
         v
+    }
+    /// ln|H| of the first-pulse response at angular frequency w (meaningful when `first_decayed`)
+    pub fn first_log_mag(&self, w: f64) -> f64 {
+        crate::refimpl::log_mag(&self.first, w) - 0.5 * (self.p as f64).ln()
     }
     /// energy of the impulse response (only meaningful when `decayed`)
     pub fn energy(&self) -> f64 {
